@@ -154,7 +154,7 @@ def chunk_runs(lines, nchunks):
     return [c for c in chunks if c]
 
 
-def model_behaviours(scn, workdir, count, seed=1, fixes=None, timeout=120):
+def model_behaviours(scn, workdir, count, seed=1, fixes=None, timeout=120, with_labels=False):
     """Random complete behaviours of the specification (tlc -simulate), as schedules of thread names for the harness's script driver"""
     fixes = FIXES if fixes is None else fixes
     tv.copy_specs(workdir)
@@ -182,7 +182,7 @@ def model_behaviours(scn, workdir, count, seed=1, fixes=None, timeout=120):
             steps = tv.parse_tla_set(chunk[start:end])
         except Exception:
             continue
-        sc = [p for (p, label, atomic) in steps if not label.startswith('z_') and not atomic]
+        sc = [((p, label) if with_labels else p) for (p, label, atomic) in steps if not label.startswith('z_') and not atomic]
         if sc not in scripts:
             scripts.append(sc)
     return scripts[:count]
